@@ -16,7 +16,10 @@ import (
 
 const refTag = "refs/tags/v1"
 
-func genTagCase(c *runCtx, r *rand.Rand, idx int) error {
+func genTagCase(c *runCtx, r *rand.Rand, idx int) error { return genTagCaseG(c, r, idx, false) }
+
+// genTagCaseG: with mono, the same history is also verified under the policy plus 1-2 global rules (C11).
+func genTagCaseG(c *runCtx, r *rand.Rand, idx int, mono bool) error {
 	m := 1 + r.Intn(4)
 	pids := []int{}
 	for _, x := range r.Perm(4)[:m] {
@@ -62,6 +65,10 @@ func genTagCase(c *runCtx, r *rand.Rand, idx int) error {
 			na = len(authKeys)
 			if k == n-1 {
 				na = r.Intn(len(authKeys) + 1)
+			}
+			if mono && k == n-1 && r.Intn(2) == 0 {
+				// a fully approved entry recorded by an authorised key, for a tag object that nobody trusted signed
+				tagSigner, na = []int{8, 0}[r.Intn(2)], len(authKeys)
 			}
 		}
 		signers := []int{}
@@ -130,6 +137,36 @@ func genTagCase(c *runCtx, r *rand.Rand, idx int) error {
 	def := fmt.Sprintf("tw%d", idx)
 	c.defs = append(c.defs, fmt.Sprintf("Definition %s : tworld := {| tw_world := %s; tw_tags := %s; tw_ref_now := %s |}.", def, w.coq(), coqList(tagTerms), now))
 	term := fmt.Sprintf("(WTags %s %s %s)", def, coqStr(refTag), obs)
+	if mono {
+		wg := &wWorld{Commits: w.Commits}
+		for _, e := range w.Events {
+			e2 := e
+			if e.Pol != nil {
+				e2.Pol = clonePolicy(e.Pol)
+				e2.Pol.Globals = genGlobals(r, 1+r.Intn(2), "")
+			}
+			wg.Events = append(wg.Events, e2)
+		}
+		bg, err := buildWorld(wg)
+		if err != nil {
+			return err
+		}
+		var obsG, ohG string
+		func() {
+			defer func() {
+				if rec := recover(); rec != nil {
+					obsG, ohG = "VPanic", fmt.Sprint("panic: ", rec)
+				}
+			}()
+			tip, err := policy.NewPolicyVerifier(bg.m).VerifyRefFull(context.Background(), refTag)
+			obsG, ohG = bg.voutOf(tip, err)
+		}()
+		term = fmt.Sprintf("(WTagsMono %s %s %s %s)", def, coqStr(refTag), obsG, obs)
+		c.add(term, sideCase{Class: "C11/tags/" + strings.Split(strings.Trim(obsG, "()"), " ")[0] + "-vs-" + strings.Split(strings.Trim(obs, "()"), " ")[0], Nontrivial: true, Key: keyOf(fmt.Sprint(wg.human())),
+			Human: map[string]interface{}{"world": w.human(), "rule": fmt.Sprintf("protect-tags %s pids=%v thr=%d", pat, pids, thr), "global_rules_added": fmt.Sprint(wg.Events[0].Pol.Globals),
+				"observed_with_global_rules": ohG, "observed_without": oh}})
+		return nil
+	}
 	c.add(term, sideCase{Class: "C01/tags/" + strings.Split(strings.Trim(obs, "()"), " ")[0], Nontrivial: n >= 2 || strings.HasPrefix(obs, "(VFail"), Key: keyOf(fmt.Sprint(w.human())),
 		Human: map[string]interface{}{"world": w.human(), "rule": fmt.Sprintf("protect-tags %s pids=%v thr=%d", pat, pids, thr), "observed": oh}})
 	return nil
